@@ -103,3 +103,10 @@ add('C05', 'Hypothesis generated species collections with adversarial names + wr
     'to 9 significant digits; any raise or changed count is a failure. Exploration only.',
     'Trusted: the reference card parser in vf/p05.py; names without blanks and not starting with "!".',
     'DESIGN.md 3/C05')
+add('C11', 'Hypothesis generated objects of every serialisable class + encode/decode round-trip judged by an independent structural snapshot (class, constructor attributes recursively, getter values), idempotence and purity checks; failures bucketed per (class, attribute)',
+    'One generator per class (all mode models, ConstantMode, LSR, StatMech with references/misc models, Nasa, Nasa9, SingleNasa9, Shomate, Reference(s), GasPressureAdj, PiecewiseCovEffect, '
+    'CatSite, both BEP classes, Reaction, ChemkinReaction, SurfaceReaction, Reactions, PhaseDiagram, equations of state) with optional attributes set or not and nested species; after 1-3 '
+    'encode/decode cycles the object must be of the same class, carry the same constructor-parameter attributes (compared recursively by the harness, never through __eq__/to_dict) and return '
+    'the same getter values at two (T,P,x) points; re-encoding must be idempotent; json_to_pmutt must leave its input dictionary unchanged and be repeatable. Exploration only.',
+    'Trusted: the snapshot function of vf/p11.py (constructor signature + a fixed list of identifying attributes).',
+    'DESIGN.md 3/C11')
